@@ -20,7 +20,7 @@
     /// gives an exact result.
     #[inline]
     pub fn modu63(&self, n: u64) -> (r: u64)
-        requires self.wf(), n >> 63 == 0,
+        requires self.wfa(), n >> 63 == 0,
         ensures r as int == n as int % self.pv(),
     {
         debug_assert!(n >> 63 == 0);
@@ -32,7 +32,17 @@
         let nm = (n as u128) * (self.m64 as u128);
         let himul = (nm >> 64) as u64;
         let q = himul >> self.s64;
+        proof { self.lemma_wfa_cases(); }
         proof {
+          if self.p == 2 {
+            let n128 = n as u128;
+            assert(nm == n128 * 0x8000_0000_0000_0000u128);
+            assert(((nm >> 64) as u64) == n >> 1) by (bit_vector) requires nm == n128 * 0x8000_0000_0000_0000u128, n128 == n as u128;
+            let z = self.s64;
+            assert(himul >> z == himul) by (bit_vector) requires z == 0u16;
+            assert(n - (n >> 1) * 2 == n % 2) by (bit_vector);
+            assert((n >> 1) * 2 <= n) by (bit_vector);
+          } else {
             let t = pow2(64 + self.s64 as nat) as int;
             let pi = p as int; let ni = n as int; let m = self.m64 as int;
             assert((nm >> 64) == nm / 0x1_0000_0000_0000_0000u128) by (bit_vector);
@@ -51,6 +61,7 @@
             lemma_fundamental_div_mod(ni, pi); lemma_mod_bound(ni, pi);
             assert((q as int) * pi <= ni) by (nonlinear_arith) requires ni == pi * (q as int) + ni % pi, ni % pi >= 0;
             assert(ni - (q as int) * pi == ni % pi) by (nonlinear_arith) requires ni == pi * (q as int) + ni % pi;
+          }
         }
         n - q * p
     }
